@@ -21,7 +21,7 @@ STUBS = ["builtins.open / os.* / os.path.* (in-memory POSIX file system with unl
 
 DEFAULT_KNOBS = {"bufsize": 8192, "hide_fileno": False, "compound": True,
                  "blocklimit": 128, "compression": 3, "limitmb": 128,
-                 "inlinelimit": 1}
+                 "inlinelimit": 1, "mmap": True}
 
 
 def make_record(pid, seed, cfg, ops, **extra):
@@ -30,7 +30,7 @@ def make_record(pid, seed, cfg, ops, **extra):
     return rec
 
 
-def generate_hist(pid, seed, gen_kwargs=None, cfg_kwargs=None, nkeys=12, **extra):
+def generate_hist(pid, seed, gen_kwargs=None, cfg_kwargs=None, nkeys=12, docgen_kwargs=None, **extra):
     """Draw a config and a history for seed (pure function of seed)."""
     import random
     crng = random.Random("%s/config" % seed)
@@ -38,7 +38,7 @@ def generate_hist(pid, seed, gen_kwargs=None, cfg_kwargs=None, nkeys=12, **extra
     from whoosim import seams
     seams.load_whoosh()
     cfg = RunConfig(crng, **(cfg_kwargs or {}))
-    dg = DocGen(cfg, wrng, nkeys=nkeys)
+    dg = DocGen(cfg, wrng, nkeys=nkeys, **(docgen_kwargs or {}))
     gk = dict(gen_kwargs or {})
     for k, v in list(gk.items()):
         if callable(v):
